@@ -399,7 +399,23 @@ where
     let n = (case.n as usize % 6) + 1;
     let tname = T::tname(&dims);
     ndv_oracle::ring::set_unit(<f64 as Flt>::U);
-    let to_arr2 = |m: &Mat| Array2::from_shape_fn((n, n), |(i, j)| T::from_flat(&dims, &m.flats[i * n + j]));
+    // memory layout of the ndarray input: row-major, column-major, or a non-contiguous view into a larger
+    // array (the routines index by (i, j); anything that addresses the storage directly depends on it)
+    let layout = case.perm[case.perm.len() - 1] % 4;
+    let to_arr2 = |m: &Mat| -> Array2<T> {
+        use ndarray::ShapeBuilder;
+        let get = |i: usize, j: usize| T::from_flat(&dims, &m.flats[i * n + j]);
+        match layout {
+            1 => Array2::from_shape_fn((n, n).f(), |(i, j)| get(i, j)),
+            2 => Array2::from_shape_fn((n, n), |(i, j)| get(j, i)).reversed_axes(),
+            3 => {
+                let big = Array2::from_shape_fn((2 * n, 2 * n + 1), |(i, j)| get(i / 2 % n, j / 2 % n));
+                big.slice(ndarray::s![..;2, ..2 * n;2]).to_owned()
+            }
+            _ => Array2::from_shape_fn((n, n), |(i, j)| get(i, j)),
+        }
+    };
+    st.class(["ndarray layout: row-major", "ndarray layout: column-major", "ndarray layout: transposed view made owned", "ndarray layout: strided slice made owned"][layout as usize]);
     let fail = |sig: String, why: String, m: &Mat| Verdict::Fail { sig, why: format!("{why}; type {tname}, n = {n}, matrix real parts {:?}", m.flats.iter().map(|f| f.vals[0]).collect::<Vec<_>>()) };
     let bf: Vec<Flat> = (0..n).map(|i| entry_flat(&lay, case.rhs[i % case.rhs.len()], &case.parts, 100 + i, None)).collect();
     let pmax = case.parts.iter().fold(1.0f64, |a, b| a.max(b.abs())).min(4.0);
@@ -858,7 +874,7 @@ impl Property for C12 {
         }
     }
     fn rule() -> String {
-        "generated: size n in 1..6; general matrices P (Q1 D Q2) with Givens-product orthogonal factors, singular values in [0.5,2] (condition number <= 4 known by construction; 20%: up to 1e4) and a random row permutation (pivoting paths, both parities); symmetric matrices Q L Q^T with eigenvalue gaps >= 0.25 (20%: real part already diagonal or block-diagonal, only the derivative parts couple; another 20%: a constant diagonal a I + B with hollow dyadic B - tridiagonal, full or block-structured - whose eigenvalue gap is computed by a plain-float Jacobi iteration of the harness, gap >= 0.2); every entry carries arbitrary derivative parts (symmetric for the eigen routines); right-hand sides; one case in three multiplies the whole matrix (real and derivative parts) by 2^k, |k| <= 60 (exact; all routines are scale-covariant, nalgebra's symmetric_eigen excepted from scaling); scalar types Dual64, Dual2_64, DualSVec64<2>, HyperDual64, Dual3_64 and the nested Dual<Dual64>, Dual2<Dual64> for the crate's own LU / Jacobi / norm and Dual64, Dual2_64, DualSVec64<2>, Dual2SVec64<2> for nalgebra's generic LU, inverse, determinant, symmetric_eigen; singular stratum: exact dyadic matrices with a zero column / repeated row / dependent row and non-zero derivative parts. Oracle = validity predicates evaluated in the reference algebra on the library's output: A x = b, A A^-1 = I, det = Leibniz expansion (all parts, which contains Jacobi's formula), A V = V diag(lambda), V^T V = I, lambda ascending (crate Jacobi), which contains Hellmann-Feynman; tolerance 64 n u (1+kappa)^(1+order) * (summed magnitude of the identity's terms) for the direct methods, crate Jacobi 64 n u amp^(1+2 order) with amp = 1 + norm/gap; nalgebra symmetric_eigen: real part 1e7 u amp (its own accuracy), derivative parts 64 n u amp^(1+2 order) - cases beyond that are occurrences of the KNOWN finding C12/na-symmetric-eigen/derivative-parts (excluded and counted); the singular stratum must be reported (Err / None / false) and never yield non-finite output. Non-trivial: n >= 3, a row swap happened, non-zero derivative parts.".into()
+        "generated: size n in 1..6; general matrices P (Q1 D Q2) with Givens-product orthogonal factors, singular values in [0.5,2] (condition number <= 4 known by construction; 20%: up to 1e4) and a random row permutation (pivoting paths, both parities); symmetric matrices Q L Q^T with eigenvalue gaps >= 0.25 (20%: real part already diagonal or block-diagonal, only the derivative parts couple; another 20%: a constant diagonal a I + B with hollow dyadic B - tridiagonal, full or block-structured - whose eigenvalue gap is computed by a plain-float Jacobi iteration of the harness, gap >= 0.2); every entry carries arbitrary derivative parts (symmetric for the eigen routines); right-hand sides; the ndarray inputs of the crate's own routines come in row-major, column-major, reversed-axes and sliced-then-owned layout; one case in three multiplies the whole matrix (real and derivative parts) by 2^k, |k| <= 60 (exact; all routines are scale-covariant, nalgebra's symmetric_eigen excepted from scaling); scalar types Dual64, Dual2_64, DualSVec64<2>, HyperDual64, Dual3_64 and the nested Dual<Dual64>, Dual2<Dual64> for the crate's own LU / Jacobi / norm and Dual64, Dual2_64, DualSVec64<2>, Dual2SVec64<2> for nalgebra's generic LU, inverse, determinant, symmetric_eigen; singular stratum: exact dyadic matrices with a zero column / repeated row / dependent row and non-zero derivative parts. Oracle = validity predicates evaluated in the reference algebra on the library's output: A x = b, A A^-1 = I, det = Leibniz expansion (all parts, which contains Jacobi's formula), A V = V diag(lambda), V^T V = I, lambda ascending (crate Jacobi), which contains Hellmann-Feynman; tolerance 64 n u (1+kappa)^(1+order) * (summed magnitude of the identity's terms) for the direct methods, crate Jacobi 64 n u amp^(1+2 order) with amp = 1 + norm/gap; nalgebra symmetric_eigen: real part 1e7 u amp (its own accuracy), derivative parts 64 n u amp^(1+2 order) - cases beyond that are occurrences of the KNOWN finding C12/na-symmetric-eigen/derivative-parts (excluded and counted); the singular stratum must be reported (Err / None / false) and never yield non-finite output. Non-trivial: n >= 3, a row swap happened, non-zero derivative parts.".into()
     }
     fn assumptions() -> Vec<String> {
         vec![
